@@ -206,11 +206,20 @@ where
         &mut self,
         author: MemberId,
         key_bundle: &LongTermKeyBundle,
-    ) -> Result<Event<C>, IdentityError<F, C>> {
+    ) -> Result<Option<Event<C>>, IdentityError<F, C>> {
         key_bundle.verify()?;
         let member = Member::new(author, key_bundle.clone());
+
+        // Processing a key bundle we already know does not change the registry and informs nobody.
+        let key_registry_y = self.key_registry().await?;
+        let key_registry_y_i =
+            KeyRegistry::add_longterm_bundle(key_registry_y.clone(), author, key_bundle.clone())?;
+        if key_registry_y_i == key_registry_y {
+            return Ok(None);
+        }
+
         self.register_member(&member).await?;
-        Ok(Event::KeyBundle { author })
+        Ok(Some(Event::KeyBundle { author }))
     }
 
     pub async fn forge(&mut self, args: SpacesArgs<C>) -> Result<F::Message, IdentityError<F, C>> {
